@@ -384,6 +384,48 @@ pub fn main(a: &Args) {
             rep.violation("C17", &format!("order:{}", fnv(t)), "the same grammar compiled twice in one process (different processing order) gave different files", json!({"grammar": t, "argv": flags.argv()}));
         }
     }
+    // (d) a directory processed by one rcomp call (traversal order is the file system's) vs each grammar alone.
+    // Only grammars that rcomp accepts on their own are put into the directory (process_dir stops at the first
+    // rejected grammar, and rcomp exits 0 either way).
+    {
+        let names = ["zeta", "alpha", "mid", "beta2", "x1", "k9"];
+        let dir = base.join("dirmode");
+        let _ = std::fs::remove_dir_all(&dir);
+        std::fs::create_dir_all(dir.join("sub")).unwrap();
+        let mut picked: Vec<(String, &String, PathBuf)> = vec![];
+        for t in texts_for_order.iter() {
+            if picked.len() >= names.len() {
+                break;
+            }
+            let n = names[picked.len()].to_string();
+            let single = base.join(format!("single_{}", n));
+            let _ = std::fs::remove_dir_all(&single);
+            std::fs::create_dir_all(&single).unwrap();
+            std::fs::write(single.join(format!("{}.rustemo", n)), t).unwrap();
+            let _ = Command::new(&rcomp).args(flags.argv()).arg(single.join(format!("{}.rustemo", n))).env_remove("OUT_DIR").env_remove("CARGO_MANIFEST_DIR").output();
+            if single.join(format!("{}.rs", n)).exists() {
+                picked.push((n, t, single));
+            }
+        }
+        if picked.len() >= 2 {
+            for (i, (n, t, _)) in picked.iter().enumerate() {
+                let d = if i % 2 == 0 { dir.clone() } else { dir.join("sub") };
+                std::fs::write(d.join(format!("{}.rustemo", n)), t).unwrap();
+            }
+            let _ = Command::new(&rcomp).args(flags.argv()).arg(&dir).env_remove("OUT_DIR").env_remove("CARGO_MANIFEST_DIR").output();
+            for (i, (n, t, single)) in picked.iter().enumerate() {
+                let d = if i % 2 == 0 { dir.clone() } else { dir.join("sub") };
+                rep.count("dir_mode_pairs", 1);
+                for sfx in [".rs", "_actions.rs"] {
+                    let a = std::fs::read(d.join(format!("{}{}", n, sfx))).ok();
+                    let b = std::fs::read(single.join(format!("{}{}", n, sfx))).ok();
+                    if a != b {
+                        rep.violation("C17", &format!("dirmode:{}", fnv(t)), &format!("rcomp over a directory wrote a different {}{} than rcomp over the grammar alone (written: {} vs {})", n, sfx, a.is_some(), b.is_some()), json!({"grammar": t, "argv": flags.argv()}));
+                    }
+                }
+            }
+        }
+    }
     let _ = std::fs::remove_dir_all(&base);
     rep.sample(json!({"single_flag_vectors": singles.len(), "fresh_processes_per_dedupe_grammar": k}));
     rep.finish();
